@@ -553,7 +553,8 @@ def parseFormulaXlsb (ctx : Ctx) (rgce : Bytes) : Res (List Char) :=
     slice-indexed and panicked): a formula shorter than its leading 3-D token is `XlsError::Len` -/
 def needDn (b : Bytes) (n : Nat) : Res Unit := needLen "defined name formula" b n
 
-/-- returns `(ixti, text)`; columns are printed unmasked and always with `$` (as the code does) -/
+/-- returns `(ixti, text)`; since f573698 (C16-e) the references are rendered by `push_cell_ref` like in
+    `parse_formula`: column field masked, `$` only before absolute parts -/
 def definedNameXls (rgce : Bytes) : Res (Option Nat × List Char) :=
   match rgce with
   | [] => .ok (none, "empty rgce".toList)
@@ -562,12 +563,10 @@ def definedNameXls (rgce : Bytes) : Res (Option Nat × List Char) :=
     match ptg with
     | 0x3a | 0x5a | 0x7a => do
       needDn rgce 7
-      .ok (some (u16 rgce 1), '$' :: pushColumn (u16 rgce 5) ++ '$' :: natText (u16 rgce 3 + 1))
+      .ok (some (u16 rgce 1), cellRef (u16 rgce 3) (u16 rgce 5))
     | 0x3b | 0x5b | 0x7b => do
       needDn rgce 11
-      .ok (some (u16 rgce 1),
-           '$' :: pushColumn (u16 rgce 7) ++ '$' :: natText (u16 rgce 3 + 1) ++ ':' ::
-           '$' :: pushColumn (u16 rgce 9) ++ '$' :: natText (u16 rgce 5 + 1))
+      .ok (some (u16 rgce 1), cellRef (u16 rgce 3) (u16 rgce 7) ++ ':' :: cellRef (u16 rgce 5) (u16 rgce 9))
     | 0x3c | 0x5c | 0x7c | 0x3d | 0x5d | 0x7d => do
       needDn rgce 3
       .ok (some (u16 rgce 1), "#REF!".toList)
